@@ -245,6 +245,14 @@ func property(t *rapid.T) {
 	desc := h.desc() + " ctx=[" + strings.Join(ctx.Desc, "; ") + "] fields=[" + strings.Join(fld.Desc, "; ") + "]"
 	flLen := len(h.File) + 1 + len(strconv.Itoa(h.Line))
 	record(&st, desc, h, flLen)
+	if rapid.IntRange(0, 9).Draw(t, "afterOversized") == 0 {
+		// an earlier event whose line is larger than the buffer-reuse cap (a stack trace, a dump): what
+		// it leaves in the buffer pool must not show up in the next line
+		big := &log.Event{Level: log.ErrorLevel, Time: h.Time, File: "big.go", Line: 1, Tag: "_big",
+			Fields: []log.Field{log.String("dump", strings.Repeat(rapid.SampledFrom([]string{"Z", "stack\n\tframe ", "é"}).Draw(t, "bigUnit"), rapid.IntRange(11000, 40000).Draw(t, "bigLen")))}}
+		_, _, _ = formatBoth(big, h.W)
+		vk.Class("after-oversized-line")
+	}
 	jl, tl, p := formatBoth(e, h.W)
 	if p != nil {
 		t.Fatalf("VERIF-VIOLATION C08: formatting panicked with width %d: %v\nevent: %s", h.W, p, desc)
